@@ -3,7 +3,7 @@
    Model/Pattern.v: compile = PatternDefInterpreter, run = the _match / match methods, multi_match, the cache.
    Spec/PatSem.v:   pm_pat / pm_fspec / pm_vpat / pm_multi = the property text as a definition on the syntax.
    Oracles (universally quantified below): the digest H, Python re (re_ok, re_match), repr of a node. *)
-From Oak Require Import Model.Pattern Spec.PatSem Proofs.PatternProofs.
+From Oak Require Import Model.Pattern Spec.PatSem Proofs.PatternProofs Proofs.PatVarProofs Proofs.PatSharedAny.
 From Coq Require Import List.
 Import ListNotations.
 
@@ -39,6 +39,44 @@ Theorem C08_capture_tail : forall H ct re_match node_repr t v ctx,
   pm_fspec H ct re_match node_repr (FSeq [] (Some (Some t)) None) v ctx =
   match seq_items v with Some _ => ROk [(t, seq_drop 0 v)] | None => RFail end.
 Proof. exact capture_tail. Qed.
+
+(* a pattern accepted by the interpreter never raises the run-time "Pattern uses match variable before it was
+   captured" error: for every value and every initial context (in particular the empty one of NodeMatcher.match).
+   compile accepts "$x" only after a capture of x in the left-to-right scan; the matcher runs the same parts in the
+   same order and stops at the first failure, and a sequence only enters its element loop when it has at least as
+   many elements as matchers, so every name scanned so far is bound on every path still running. *)
+Theorem C08_run_no_var_error : forall H ct re_ok re_match node_repr p m,
+  compile ct re_ok true p = inl m ->
+  forall v ctx, run H ct re_match node_repr true m v ctx <> RRaise.
+Proof. exact run_no_var_error. Qed.
+(* the invariant behind it, for a pattern compiled after the captures [seen]: started in a context binding all of
+   [seen] it does not raise, and when it matches, all of [seen'] is bound by the context plus its own captures *)
+Theorem C08_scan_invariant : forall H ct re_ok re_match node_repr p seen m seen',
+  c_pat ct re_ok true p seen = COk m seen' ->
+  forall v ctx, covers seen ctx ->
+    pm_pat H ct re_match node_repr p v ctx <> RRaise /\
+    forall nv, pm_pat H ct re_match node_repr p v ctx = ROk nv -> covers seen' (dupdate ctx nv).
+Proof. exact scan_invariant. Qed.
+(* on success every capture name of the pattern has a value in the returned dictionary *)
+Theorem C08_match_binds_all : forall H ct re_ok re_match node_repr p m seen',
+  c_pat ct re_ok true p [] = COk m seen' ->
+  forall v nv, run H ct re_match node_repr true m v [] = ROk nv -> forall k, mem k seen' = true -> dget k nv <> None.
+Proof. exact run_binds_all. Qed.
+(* MultiPatternMatcher.match does not let the error escape either *)
+Theorem C08_multi_no_var_error : forall H ct re_ok re_match node_repr rules crules v name,
+  compiled ct re_ok rules crules ->
+  multi_match H ct re_match node_repr true crules v <> Some (name, RRaise).
+Proof. exact multi_no_var_error. Qed.
+Example C08_no_var_error_inhabited :
+  exists m s, c_pat wit_ct (fun _ => true) true pat_demo [] = COk m s /\ mem (lit "a") s = true /\ covers [] [].
+Proof. eexists. eexists. split; [vm_compute; reflexivity|]. split; [reflexivity|]. intros k Hk; discriminate. Qed.
+(* the length test of SequenceMatcher matters for this: with the pre-repair test (D7) the element loop could stop
+   early, leave a capture unbound, and a later $variable raised at run time although the pattern compiled *)
+Theorem C08_refuted_seq_len_var_raises :
+  exists m, compile wit_ct (fun _ => true) true pat_D7var = inl m
+    /\ run idH wit_ct any_re no_repr false m (XN (nL 0 [nA 1 "a"])) [] = RRaise
+    /\ run idH wit_ct any_re no_repr true m (XN (nL 0 [nA 1 "a"])) [] = RFail.
+Proof. exact refuted_D7_var_raises. Qed.
 
 (* MultiPatternMatcher: the compiled rules answer as the rule list does under the documented semantics ... *)
 Theorem C08_multi_sem : forall H ct re_ok re_match node_repr rules crules v,
@@ -83,3 +121,18 @@ Theorem C08_refuted_star_capture :
   compile wit_ct (fun _ => true) false pat_D8b = inr EUnexpected /\
   exists m, compile wit_ct (fun _ => true) true pat_D8b = inl m.
 Proof. exact refuted_D8_star_capture. Qed.
+
+(* D9 before its repair: AnyMatcher was one shared object whose name every later construction overwrote.  Modelled
+   by the final content of that one cell (Proofs/PatSharedAny.v: anys = the names in construction order,
+   share o = every AnyMatcher reads o).  MultiPatternMatcher [r1 = (A @x -> v); r2 = (B @x)] lost the capture v of
+   r1, and [r1 = (B @x); r2 = (A @x -> w)] made r1 capture under the name w; the current code (compile_rules
+   without sharing) and the documented semantics give {v: 'a'} and {} *)
+Theorem C08_refuted_shared_any :
+  compiled wit_ct (fun _ => true) d9_rules (compile_rules d9_rules) /\
+  multi_match idH wit_ct any_re no_repr true (shared_rules (compile_rules d9_rules)) (XN (nA 1 "a")) = Some (lit "r1", ROk []) /\
+  pm_multi idH wit_ct any_re no_repr d9_rules (XN (nA 1 "a")) = Some (lit "r1", ROk [(lit "v", XP (VStr (lit "a")))]) /\
+  multi_match idH wit_ct any_re no_repr true (compile_rules d9_rules) (XN (nA 1 "a")) = Some (lit "r1", ROk [(lit "v", XP (VStr (lit "a")))]) /\
+  multi_match idH wit_ct any_re no_repr true (shared_rules (compile_rules d9_rules2)) (XN (nB 1 "b"))
+    = Some (lit "r1", ROk [(lit "w", XP (VStr (lit "b")))]) /\
+  pm_multi idH wit_ct any_re no_repr d9_rules2 (XN (nB 1 "b")) = Some (lit "r1", ROk []).
+Proof. exact refuted_D9_shared_any. Qed.
